@@ -684,6 +684,8 @@ func runCLIWorker(args []string) int {
 	sc := bufio.NewScanner(os.Stdin)
 	sc.Buffer(make([]byte, 1<<20), 1<<28)
 	w := bufio.NewWriter(os.Stdout)
+	var srv *serverProc
+	defer func() { srv.stop() }()
 	for sc.Scan() {
 		var job struct {
 			ID   int64    `json:"id"`
@@ -698,7 +700,20 @@ func runCLIWorker(args []string) int {
 			fmt.Fprintf(w, "P %d %s\n", row, name)
 			w.Flush()
 		}
-		cr.runTree(job.ID, &job.Tree, root, maps)
+		if prop == "C12" {
+			if srv == nil || !srv.alive() {
+				srv.stop()
+				var err error
+				srv, err = startServer(root)
+				if err != nil {
+					fmt.Fprintln(os.Stderr, "worker: cannot start server:", err)
+					return 2
+				}
+			}
+			cr.runTreeRemote(job.ID, &job.Tree, root, maps, srv)
+		} else {
+			cr.runTree(job.ID, &job.Tree, root, maps)
+		}
 		b, _ := json.Marshal(map[string]interface{}{"viols": cr.viols, "stats": cr.stats})
 		w.WriteString("R ")
 		w.Write(b)
